@@ -26,6 +26,11 @@ CLAIMED = {
    note="Trusted: Lean kernel + propext/Quot.sound/Classical.choice; SHAKE-256 is a parameter (collision resistance assumed); the model is hand-written and tied to /repo by the M1 stream (≈19k comparisons per quick run); text-codec round trip is checked by correspondence + oracle, not yet by a theorem.",
    technique="Lean 4 proof over executable model + differential correspondence with the Rust code",
    design="§7 C18"),
+ "C19": dict(
+   text="Lean 4 theorems for the crate's own hand-written byte codecs after repair (cursor reads over fixed-width point / scalar encoders: PS public key and BBS proof-of-knowledge layouts round-trip for every value; the pinned BBS length test is proved unsatisfiable on any encoding), tied to the real from_bytes by differential correspondence on valid, truncated, extended and count-mutated encodings; for the serde-derived formats every object kind × JSON / CBOR / BARE is round-tripped on the real code (re-encoding equality and unchanged verification verdicts).",
+   note="Trusted: Lean kernel + propext/Quot.sound/Classical.choice; blstrs point / scalar (de)compression and the serde back ends (serde_json, serde_cbor, serde_bare) are third-party and are parameters / exercised, not modelled; known finding F20 (BARE cannot decode structs whose serialiser skipped an optional field) is recorded, not repaired.",
+   technique="Lean 4 proof over executable codec model + differential correspondence and round-trip oracle on the Rust code",
+   design="§7 C19"),
  "C01": dict(
    text="Lean 4 theorems in two layers. Decision logic of Presentation::verify for every presentation object and schema: acceptance implies the challenge comparison succeeded, every signature statement is matched with a proof of the signature variant that passed the disclosed-claims check and its proof-of-knowledge verifier, every predicate statement with a proof of its own variant; other variants / missing proofs are rejected. Algebra (C17): special soundness of the BBS / PS proofs of knowledge for response vectors of the checked length with the extracted witness shown to be a signature. On the real code an adversary without any signature of the statement's issuer runs the attack catalogue (foreign credential, steered transplant, free challenges, omitted proof, all 7 other variants under the signature id, observed proofs, every response-vector length, over-long forgeries with harvested pair / no signature, identity elements).",
    note="Trusted: Lean kernel + standard axioms; forking lemma, q-SDH / PS assumption, random-oracle idealisation of merlin; pairing read through the secret key. The decision-logic model is hand-written; its disclosed-claims check is compared with the real verdict (C02 stream) and its dispatch clauses are exercised by the attack catalogue; cryptographic sub-checks are parameters of that model.",
